@@ -420,6 +420,40 @@ def check_packet_error_class(ctx):
             if ok:
                 ctx.holds(rule, strm, stmt_text(n)[:160], 'f-string: total; numeric specs on offsets only', n.lineno)
     ctx.unit('format_sites', nfmt)
+    # Round 8 (F12): the offsets in the stack are what the caller of Packet.unpack passed as
+    # ``offset`` (and what the fields computed from it): a numeric conversion of an offset is total
+    # only if that argument is known to be an integer, or the conversion is protected
+    num_sites = []
+    for f_ in str_funcs:
+        par_ = {}
+        for pn in ast.walk(f_.node):
+            for c_ in ast.iter_child_nodes(pn):
+                par_[id(c_)] = pn
+        for n in ast.walk(f_.node):
+            if isinstance(n, ast.BinOp) and isinstance(n.op, ast.Mod) and isinstance(n.left, ast.Constant) and isinstance(n.left.value, str) \
+                    and any(cv in 'diouxX' for cv in conversions(n.left.value)):
+                cur, protected = n, False
+                while id(cur) in par_:
+                    cur_p = par_[id(cur)]
+                    if isinstance(cur_p, ast.Try) and cur in cur_p.body and any(h.type is None or any(t in unparse(h.type) for t in ('TypeError', 'Exception')) for h in cur_p.handlers):
+                        protected = True
+                    cur = cur_p
+                num_sites.append((f_, n, protected))
+    up = repo.cls('Packet').methods.get('unpack')
+    validated = False
+    if up is not None:
+        for n in ast.walk(up.node):
+            if isinstance(n, ast.If) and any(isinstance(x, ast.Raise) for x in n.body) and 'isinstance(offset' in unparse(n.test) and 'int' in unparse(n.test):
+                validated = True
+    for f_, n, protected in num_sites:
+        st = stmt_text(n)[:120]
+        if protected:
+            ctx.holds(rule, f_, st, 'the integer conversion of an offset is protected: an offset that is not an integer is shown as it is', n.lineno)
+        elif validated:
+            ctx.holds(rule, f_, st, 'Packet.unpack rejects an offset that is not an integer', n.lineno)
+        else:
+            ctx.violation(rule, f_, st, 'the offset is formatted with an integer conversion, but Packet.unpack(raw, offset) accepts any object as the offset: unpack(raw, offset=None) raises a PacketError whose str() raises TypeError ("%x format: an integer is required")', n.lineno,
+                          key='PacketError text: integer conversion of an offset that need not be an integer', witness=True)
     # __str__ must return on all paths and contain no raise
     if any(isinstance(n, ast.Raise) for n in ast.walk(strm.node)):
         ctx.violation(rule, strm, 'PacketError.__str__', 'contains a raise statement', strm.node.lineno)
